@@ -555,4 +555,11 @@ theorem storeRec_cache' (s : State) (i k r) :
 @[simp] theorem storeRec_added (s : State) (i k r) : (storeRec s i k r).1.added = s.added := by
   have := storeRec_books s i k r; simp only [books, Prod.mk.injEq] at this; exact this.1
 
+/-- a TmpStore never refuses a record -/
+theorem storeRec_tmp_ok (s : State) (i k r) (h : s.sp.isSome = true) : (storeRec s i k r).2 = none := by
+  unfold storeRec
+  cases hs : s.sp with
+  | none => rw [hs] at h; cases h
+  | some t => rfl
+
 end Proofs.Conn
